@@ -11,29 +11,40 @@ import (
 // the buffer and check that Content() and all pixels of the returned barcode are unchanged.
 func init() {
 	register("alias", func(a []string) string {
-		data := unhex(a[3])
-		orig := append([]byte(nil), data...)
+		payload := unhex(a[3])
+		// the payload is a sub-slice of a larger live buffer: guard bytes before and after it,
+		// and spare capacity behind it, as when several messages are packed into one []byte
+		buf := make([]byte, 0, len(payload)+24)
+		buf = append(buf, 0xA5, 0x5A, 0xA5, 0x5A)
+		buf = append(buf, payload...)
+		buf = append(buf, 0xC3, 0x3C, 0xC3, 0x3C, 0xC3, 0x3C, 0xC3, 0x3C)
+		whole := buf[:cap(buf)]
+		for i := len(buf); i < cap(buf); i++ {
+			whole[i] = 0x77
+		}
+		orig := append([]byte(nil), whole...)
+		data := buf[4 : 4+len(payload)] // len = payload, cap reaches to the end of the buffer
 		var d1 string
 		bc, err := aztec.Encode(data, atoi(a[1]), atoi(a[2]))
 		if a[0] == "1" {
 			s := testSchemes["rgba"]
 			bc, err = aztec.EncodeWithColor(data, atoi(a[1]), atoi(a[2]), s)
 		}
-		if !bytes.Equal(data, orig) {
-			return "INPUT-MODIFIED"
+		if !bytes.Equal(whole, orig) {
+			return "INPUT-MODIFIED (caller's backing array changed, inside or beyond the argument)"
 		}
 		if err != nil {
 			return "ERR"
 		}
 		d1 = describe(bc, err)
-		for i := range data {
-			data[i] ^= 0xFF
+		for i := range whole {
+			whole[i] ^= 0xFF
 		}
 		d2 := describe(bc, err)
 		if d1 != d2 {
 			return "CHANGED-AFTER-MUTATION " + shortDesc(d1) + " -> " + shortDesc(d2)
 		}
-		if bc.Content() != string(orig) {
+		if bc.Content() != string(payload) {
 			return "CONTENT-NOT-SNAPSHOT"
 		}
 		return "SNAPSHOT " + shortDesc(d1)
